@@ -25,6 +25,7 @@ func genEventPatterns(r *rand.Rand) []PatSpec {
 		p := &pats[i]
 		p.Apply = pick(r, "", "", "ok", "ok", "fail", "nochange")
 		p.Listen = r.IntN(4)
+		p.Nest = p.Listen > 0 && chance(r, 35)
 		if len(p.Calls) == 0 {
 			p.Calls = []string{"set"}
 		}
@@ -104,6 +105,11 @@ func (EventsScenario) GenCase(r *rand.Rand, prop string) interface{} {
 			p := &c.Pats[r.IntN(len(c.Pats))]
 			id++
 			rid := instantiate(r, c.FullPattern(p), true)
+			// the name may resolve to a more specific pattern than the one it
+			// was built from: script it for the pattern that will serve it
+			if mp, _, _ := model.Match(patsOf(c), rid); mp != nil {
+				p = &c.Pats[mp.ID]
+			}
 			op := Op{ID: id, RID: rid}
 			switch r.IntN(3) {
 			case 0:
@@ -160,12 +166,17 @@ func expectEventLog(p *PatSpec, pi int, script []string, id int, rname, inbox st
 	var log []string
 	replied := false
 	sid := strconv.Itoa(id)
-	listeners := func(name, dig string) {
+	pub := func(subj string) { log = append(log, "pub "+subj) }
+	var listeners func(name, dig string)
+	listeners = func(name, dig string) {
 		for _, li := range listenerOrder(p.Listen) {
 			log = append(log, fmt.Sprintf("listener %d %s %s %s", li, name, rname, dig))
+			if li == 0 && p.Nest && name != "nested" {
+				pub("event." + rname + ".nested")
+				listeners("nested", digest(map[string]interface{}{"n": 0}))
+			}
 		}
 	}
-	pub := func(subj string) { log = append(log, "pub "+subj) }
 	apply := func(what string) bool {
 		// returns false when the apply handler fails
 		log = append(log, "apply "+what+" "+rname)
@@ -314,7 +325,21 @@ func (e *Engine) checkEvents() {
 			all = append(all, entry{rec.Seq, "listener " + rec.Extra, rec.Task})
 		}
 	}
+	// responses to requests that reach no handler (no match, no such
+	// method) are published by the dispatcher, outside any callback
+	hs := handlerSets(e.Case)
+	noHandler := map[string]bool{}
+	for _, s := range e.Subs {
+		if s != nil && s.Kind == "req" {
+			if d := model.Predict(e.Pats, hs, s.Op.Subject, e.autoPayload(s.Op), !s.Op.NoReply); d.Handler == "" {
+				noHandler[s.Inbox] = true
+			}
+		}
+	}
 	for _, p := range e.Conn.PubsSnapshot() {
+		if noHandler[p.Subject] {
+			continue
+		}
 		all = append(all, entry{p.Seq, "pub " + p.Subject, p.Task})
 	}
 	sort.Slice(all, func(i, j int) bool { return all[i].seq < all[j].seq })
